@@ -587,6 +587,24 @@ async def scenario_connect(subset, fail_at, fail_kind):
                 log["connected"].append(proto.name)
                 return True
 
+            def device_info():
+                # the connection of this protocol IS established when these run
+                if idx == fail_at and fail_kind == "device_info":
+                    raise Boom("device_info failed for %s" % proto.name)
+                return {}
+
+            class Ifaces(dict):
+                def items(self):
+                    if idx == fail_at and fail_kind == "interfaces":
+                        raise Boom("interfaces failed for %s" % proto.name)
+                    return super().items()
+
+            class Feats(set):
+                def __iter__(self):
+                    if idx == fail_at and fail_kind == "features":
+                        raise Boom("features failed for %s" % proto.name)
+                    return super().__iter__()
+
             def close():
                 log["closed"].append(proto.name)
 
@@ -594,7 +612,7 @@ async def scenario_connect(subset, fail_at, fail_kind):
                     log["tasks_run"] += 1
                 return {asyncio.ensure_future(bg())}
 
-            yield SetupData(proto, connect, close, lambda: {}, {}, set())
+            yield SetupData(proto, connect, close, device_info, Ifaces(), Feats())
         return setup
 
     class PM:
@@ -636,6 +654,141 @@ async def scenario_connect(subset, fail_at, fail_kind):
         pyatv.PROTOCOLS.clear()
         pyatv.PROTOCOLS.update(saved_protocols)
         http_mod.create_session = saved_cs
+
+
+# -- takeover bookkeeping of the real facade ------------------------------------------------------------
+
+TAKEOVER_PROTOS = ["MRP", "AirPlay", "RAOP"]     # numbered 1..3 in the model
+
+
+def takeover_ifaces():
+    from pyatv import interface
+    return [interface.RemoteControl, interface.Audio, interface.Metadata]    # numbered 0..2; 3.. = no relayer
+
+
+def takeover_histories(rng, thorough):
+    """Operation lists: ("take", proto_no, [iface numbers]) / ("release", k) where k numbers the
+    accepted takeovers; a handle is released at most once."""
+    lists = [[]] + [[a] for a in range(4)] + [[a, b] for a in range(4) for b in range(4)]
+    lists += [[0, 1, 2], [2, 1, 0], [3, 2, 0, 1], [1, 3, 1]]
+    takes = [("take", p, l) for p in (1, 2) for l in lists]
+    hist = [[a] for a in takes]
+    # every pair of takeovers, each followed by the possible releases
+    for a in takes:
+        for b in takes:
+            hist.append([a, b])
+    n = 1500 if not thorough else 12000
+    for _ in range(n):
+        h = []
+        accepted_guess = 0
+        released = set()
+        for _ in range(rng.randint(3, 7)):
+            if accepted_guess > len(released) and rng.random() < 0.4:
+                k = rng.choice([x for x in range(accepted_guess) if x not in released])
+                released.add(k)
+                h.append(("release", k))
+            else:
+                p = rng.randint(1, 3)
+                l = [rng.randrange(4) for _ in range(rng.randint(0, 3))]
+                h.append(("take", p, l))
+                accepted_guess += 1      # upper bound; releases of refused ones are dropped at run time
+        hist.append(h)
+    return hist
+
+
+def run_takeover_history(hist):
+    """Run one history on a real FacadeAppleTV; returns (ops actually performed, observations, problems)."""
+    from ipaddress import IPv4Address
+    from pyatv import conf, exceptions
+    from pyatv.const import Protocol
+    from pyatv.core import CoreStateDispatcher
+    from pyatv.core.facade import FacadeAppleTV
+    from pyatv.settings import Settings
+    atv = FacadeAppleTV(conf.AppleTV(IPv4Address("127.0.0.1"), "verif"), None, CoreStateDispatcher(), Settings())
+    ifaces = takeover_ifaces()
+    protos = [Protocol[n] for n in TAKEOVER_PROTOS]
+
+    class NoRelayer:
+        pass
+
+    def holders():
+        out = []
+        for i in ifaces:
+            t = atv._interfaces[i]._takeover_protocol
+            out.append(protos.index(t[0]) + 1 if t else None)
+        return out
+
+    handles = []          # release functions of accepted takeovers, in order
+    alive = []
+    ops, obs, problems = [], [], []
+    for o in hist:
+        before = holders()
+        if o[0] == "take":
+            args = [ifaces[i] if i < len(ifaces) else NoRelayer for i in o[2]]
+            try:
+                rel = atv.takeover(protos[o[1] - 1], *args)
+                ok = True
+                handles.append(rel)
+                alive.append(True)
+            except exceptions.InvalidStateError:
+                ok = False
+            after = holders()
+            if not ok and after != before:
+                problems.append("refused takeover by %s of %s changed the holders from %s to %s" % (TAKEOVER_PROTOS[o[1] - 1], o[2], before, after))
+            if ok:
+                for j in range(len(ifaces)):
+                    want = o[1] if j in o[2] else before[j]
+                    if after[j] != want:
+                        problems.append("accepted takeover of %s by %d: interface %d held by %s, expected %s" % (o[2], o[1], j, after[j], want))
+            ops.append(o)
+            obs.append((after, ok))
+        else:
+            k = o[1]
+            if k >= len(handles) or not alive[k]:
+                continue
+            alive[k] = False
+            handles[k]()
+            ops.append(o)
+            obs.append((holders(), True))
+    # releasing whatever is still held leaves every interface free
+    for k, rel in enumerate(handles):
+        if alive[k]:
+            rel()
+    if any(h is not None for h in holders()):
+        problems.append("interfaces still taken over after every handle was released: %s" % holders())
+    return ops, obs, problems
+
+
+def takeover_part(ctx):
+    def c_on(x):
+        return "None" if x is None else "(Some %d)" % x
+
+    def c_op(o):
+        return "Take %d %s" % (o[1], common.clist([str(i) for i in o[2]])) if o[0] == "take" else "Release %d" % o[1]
+
+    cc = common.CoqCases(ctx, "From PV Require Import Common.Cases C18.TakeoverModel.", per_file=400)
+    cc.group("takeover", "check_takeover_case", "nat * list op * list (slots * bool)")
+    try:
+        hists = takeover_histories(ctx.rng, ctx.thorough)
+        for h in hists:
+            ops, obs, problems = run_takeover_history(h)
+            nref = sum(1 for _, ok in obs if not ok)
+            ctx.case(("takeover", tuple((o[0], o[1], tuple(o[2]) if o[0] == "take" else None) for o in ops)), nontrivial=len(ops) > 1,
+                     sample={"op": "takeover history", "ops": ops, "holders_after_each": [o_[0] for o_ in obs], "accepted": [o_[1] for o_ in obs]} if (nref and len(ops) > 3) else None)
+            ctx.count("takeover:refused" if nref else "takeover:all-accepted")
+            rp = {"op": "takeover", "history": ops, "observed": [[o_[0], o_[1]] for o_ in obs]}
+            for pr in problems:
+                key = ("C18:takeover:refused-call-disturbs-holder" if "refused" in pr else
+                       "C18:takeover:still-held-after-release" if "still taken" in pr else "C18:takeover:accepted-wrong-holders")
+                ctx.violation(key, pr, rp)
+            term = "(3, %s, %s)" % (common.clist([c_op(o) for o in ops]),
+                                    common.clist(["(%s, %s)" % (common.clist([c_on(x) for x in hs]), "true" if ok else "false") for hs, ok in obs]))
+            cc.add("takeover", term, rp)
+    except AttributeError as ex:
+        ctx.tie_broken("takeover:driver", "the facade/relayer no longer has the attributes the driver reads: %r" % ex)
+        return
+    for g, meta in cc.run():
+        ctx.tie_broken("correspondence:takeover", json.dumps(meta)[:1500])
 
 
 def leak_key(op, leaks, hit):
@@ -739,9 +892,11 @@ def run(ctx):
     for k in range(1, 6):
         for subset in itertools.combinations(protos, k):
             for fail_at in range(k):
-                for kind in ("exn", "oserror"):
+                for kind in ("exn", "oserror", "device_info", "interfaces", "features"):
                     r = vloop.run(scenario_connect, list(subset), fail_at, kind)
-                    ctx.case(("connect", tuple(p.name for p in subset), fail_at, kind), nontrivial=fail_at > 0,
+                    if kind == "features" and r["result"] == "ok":
+                        continue     # the facade did not iterate the feature set: nothing was injected
+                    ctx.case(("connect", tuple(p.name for p in subset), fail_at, kind), nontrivial=fail_at > 0 or kind not in ("exn", "oserror"),
                              sample={"op": "connect", "protocols": [p.name for p in subset], "failing": fail_at, "result": r["result"], "leaks": r["leaks"]} if fail_at == 1 else None)
                     ctx.count("connect:" + kind)
                     if r["result"] == "ok":
@@ -749,6 +904,7 @@ def run(ctx):
                     if r["leaks"]:
                         ctx.violation(leak_key("connect", r["leaks"], None), "connect: " + "; ".join(r["leaks"]),
                                       {"op": "connect", "protocols": [p.name for p in subset], "failing_index": fail_at, "kind": kind, "observed": r})
+    takeover_part(ctx)
     ctx.exhaustive = True
     ctx.traces = ctx.evaluations
     ctx.trusted += [
@@ -772,6 +928,10 @@ def replay(ctx, path):
         out = vloop.run(scenario_stream_overlap, r["nth_call"])
     elif op == "send_audio":
         out = vloop.run(scenario_send_audio, r["nth_call"], r["fault"])
+    elif op == "takeover":
+        ops, obs, problems = run_takeover_history([tuple(o) for o in r["history"]])
+        print("\n".join(problems) or "no problem")
+        return 1 if problems else 0
     elif op == "connect":
         from pyatv.const import Protocol
         out = vloop.run(scenario_connect, [Protocol[p] for p in r["protocols"]], r["failing_index"], r["kind"])
